@@ -17,6 +17,7 @@ package license
 import (
 	"crypto/rand"
 	"encoding/base64"
+	"errors"
 	"math"
 	"math/big"
 	"time"
@@ -62,6 +63,11 @@ func parseV1(data string) (*V1, error) {
 	raw, err := base64.RawURLEncoding.DecodeString(data)
 	if err != nil {
 		return nil, err
+	}
+
+	// Make sure the license has the right size
+	if len(raw) < 32 {
+		return nil, errors.New("license: the license provided is not valid")
 	}
 
 	// Get the expiration time
